@@ -79,6 +79,7 @@ package contracts
 //@ -- canonical MIME header key (textproto.CanonicalMIMEHeaderKey), uninterpreted
 //@ pure func canon(s string) string
 //@ axiom [canon-idempotent] forall s string :: canon(canon(s)) == canon(s)
+//@ axiom [canon-host-and-pseudo] canon("Host") == "Host" && canon(":protocol") == ":protocol"
 //@ func http.CanonicalHeaderKey :: s -> r
 //@   trusted
 //@   pure
@@ -124,6 +125,18 @@ package contracts
 //@   assigns mapOf(h)
 //@   ensures mapHas(h, canon(key)) && mapGet(h, canon(key)) == seq[string]{value}
 //@   ensures forall k string :: k != canon(key) ==> (mapHas(h, k) <==> old(mapHas(h, k))) && mapGet(h, k) == old(mapGet(h, k))
+
+//@ func http.Header.Add :: h, key, value
+//@   trusted
+//@   requires [add-on-nil-map] h != nil
+//@   assigns mapOf(h)
+//@   ensures mapHas(h, canon(key)) && mapGet(h, canon(key)) == old(ite(mapHas(h, canon(key)), mapGet(h, canon(key)), seq[string]{})) ++ seq[string]{value}
+//@   ensures forall k string :: k != canon(key) ==> (mapHas(h, k) <==> old(mapHas(h, k))) && mapGet(h, k) == old(mapGet(h, k))
+
+//@ func http.Header.Get :: h, key -> v
+//@   trusted
+//@   pure
+//@   ensures v == ite(mapHas(h, canon(key)) && len(mapGet(h, canon(key))) > 0, mapGet(h, canon(key))[0], "")
 
 //@ func http.Header.Del :: h, key
 //@   trusted
